@@ -5,7 +5,7 @@ D=/verif/seeded/$ID
 PROP=$(python3 -c "import json;print(json.load(open('$D/meta.json'))['breaks_property'])" 2>/dev/null)
 OUT=$(/verif/tools/try_patch.sh $D/patch.diff $PROP $TIER 2>&1 | grep -v conda)
 RC=$(echo "$OUT" | grep -o "exit=[0-9]*" | tail -1)
-KEYS=$(echo "$OUT" | grep -o "key=[^ ]*" | sort -u | head -6 | tr '\n' ' ')
+KEYS=$(echo "$OUT" | grep "^VKEY " | sed 's/^VKEY //' | sort -u | head -8 | tr '\n' ' ')
 NV=$(echo "$OUT" | grep -c "^VIOLATION")
 echo "$ID $PROP $TIER $RC violations=$NV $KEYS"
 python3 /verif/tools/seedmeta.py "$ID" "$PROP" "" "" "./run.sh $PROP $TIER on a scratch copy of /repo with the patch (tools/try_patch.sh): $RC, VIOLATION lines=$NV, keys: $KEYS" 2>/dev/null
